@@ -1283,7 +1283,13 @@ func (c *Conn) readLine() (string, error) {
 		}
 	}
 
-	return c.text.ReadLine()
+	line, err := c.text.ReadLine()
+	if err == nil && c.lineLimitReader.exceeded() {
+		// The buffered reader hands out the part of the line it had already
+		// collected and drops the limiter's error.
+		return "", ErrTooLongLine
+	}
+	return line, err
 }
 
 func (c *Conn) reset() {
